@@ -75,9 +75,9 @@ Ltac owner_io_case Hpre HI2 :=
   end.
 
 Lemma inv1b_step_io : forall c s ch s' l,
-  Inv2 s -> Inv1b s -> step_io c s ch = Some (s', l) -> taint s' = false -> Inv1b s'.
+  Inv2 s -> Inv1b s -> step_io c s ch = Some (s', l) -> Inv1b s'.
 Proof.
-  intros c s ch s' l HI2 [Ho Hr] H Ht. unfold step_io in H. step_cases H; free_hyps.
+  intros c s ch s' l HI2 [Ho Hr] H. unfold step_io in H. step_cases H; free_hyps.
   all: unfold after_read, turn_start, hc_return, goio in *.
   all: repeat match goal with |- context [if ?b then _ else _] => destruct b eqn:? end.
   all: try match goal with E : olock _ = None |- _ => rewrite E in Ho end.
@@ -115,13 +115,12 @@ Proof.
 Qed.
 
 Lemma inv1b_step_w : forall c s i ch s' l,
-  Inv1 s -> Inv2 s -> Inv1b s -> step_w c s i ch = Some (s', l) -> taint s' = false -> Inv1b s'.
+  Inv1 s -> Inv2 s -> Inv1b s -> step_w c s i ch = Some (s', l) -> Inv1b s'.
 Proof.
-  intros c s i ch s' l HI1 HI2 [Ho Hr] H Ht. unfold step_w in H.
+  intros c s i ch s' l HI1 HI2 [Ho Hr] H. unfold step_w in H.
   destruct (getw s i) as [pc|] eqn:Hg; [|discriminate]. unfold getw in Hg.
   destruct (i1_w _ HI1 _ _ Hg) as (Hlo & Hlr & Hsc).
   step_cases H; free_hyps; clear Hsc.
-  all: simpl in Ht; try discriminate Ht.
   all: unfold setw, hw_exit in *.
   all: repeat match goal with |- context [if ?b then _ else _] => destruct b eqn:? end.
   all: repeat match goal with |- context [match ?b with SWr _ => _ | SEnd => _ end] => destruct b eqn:? end.
@@ -143,9 +142,9 @@ Proof.
 Qed.
 
 Lemma inv1b_step : forall c s ch s' l,
-  Inv1 s -> Inv2 s -> Inv1b s -> step c s ch = Some (s', l) -> taint s' = false -> Inv1b s'.
+  Inv1 s -> Inv2 s -> Inv1b s -> step c s ch = Some (s', l) -> Inv1b s'.
 Proof.
-  intros c s ch s' l HI1 HI2 HI H Ht. unfold step in H. destruct ch;
+  intros c s ch s' l HI1 HI2 HI H. unfold step in H. destruct ch;
     try (eapply inv1b_step_io; eauto; fail); try (eapply inv1b_step_w; eauto; fail).
   - destruct (gone s); [discriminate|]. inversion H; subst. exact HI.
   - destruct (gone s); [discriminate|]. inversion H; subst. exact HI.
